@@ -408,8 +408,31 @@ where
     {
         let symbol_table = model.symbol_table();
         let mut cdf = Vec::with_capacity(symbol_table.size_hint().0 + 1);
-        cdf.extend(
-            symbol_table.map(|(symbol, left_sided_cumulative, _)| (left_sided_cumulative, symbol)),
+        // `IterableEntropyModel` is a safe trait, so we can't trust its implementation for memory
+        // safety. `quantile_function` relies on `cdf` starting at zero and being strictly increasing
+        // up to its last entry, so we verify that the symbol table tiles `0..(1 << PRECISION)`.
+        let mut accum = Probability::zero();
+        let mut complete = false;
+        for (symbol, left_sided_cumulative, probability) in symbol_table {
+            assert!(
+                !complete && left_sided_cumulative == accum,
+                "Invalid symbol table: intervals must be consecutive and start at zero."
+            );
+            accum = accum.wrapping_add(&probability.get());
+            if accum <= left_sided_cumulative {
+                // Wrapped around, which is valid only if we ended up exactly at `1 << PRECISION`
+                // (which is zero in wrapping arithmetic if `PRECISION == Probability::BITS`).
+                complete = true;
+            }
+            cdf.push((left_sided_cumulative, symbol));
+        }
+        assert!(
+            if PRECISION == Probability::BITS {
+                complete && accum == Probability::zero()
+            } else {
+                !complete && accum == wrapping_pow2(PRECISION)
+            },
+            "Invalid symbol table: probabilities must add up to `1 << PRECISION`."
         );
         cdf.push((
             wrapping_pow2(PRECISION),
